@@ -58,6 +58,8 @@ type IterPlan struct {
 	Cleanups []CleanupPlan `json:"cleanups,omitempty"`
 	// CleanupsLate: register the cleanups after the sleep instead of at the start
 	CleanupsLate bool `json:"late,omitempty"`
+	// InTimeStage: the behaviour happens inside t.Time("stage", ...)
+	InTimeStage bool `json:"in_time,omitempty"`
 }
 
 type ComponentPlan struct {
@@ -93,6 +95,8 @@ type H1Cfg struct {
 	StaticLabels  [][2]string       `json:"static_labels,omitempty"`
 	Runs          int               `json:"runs,omitempty"`          // consecutive runs on one metrics instance
 	SameScenario  bool              `json:"same_scenario,omitempty"` // ... all of the same scenario name
+	MemProfile    bool              `json:"memprofile,omitempty"`    // driver f1: pass --memprofile
+	C03Overload   bool              `json:"c03_overload,omitempty"`
 	Prog          ScenarioProg      `json:"prog"`
 	CancelAtNs    int64             `json:"cancel_at,omitempty"`   // after Do was called; <0 = cancel before Do
 	CancelAtStep  uint64            `json:"cancel_step,omitempty"` // scheduler step (asynchronous signal)
@@ -215,6 +219,7 @@ func genIterPlans(r *simrt.Rng, n int, failShare float64, maxSleepMs int, cleanu
 			p.Cleanups = append(p.Cleanups, cp)
 		}
 		p.CleanupsLate = r.Intn(4) == 0
+		p.InTimeStage = r.Intn(5) == 0
 		out = append(out, p)
 	}
 	return out
@@ -310,6 +315,9 @@ func (h h1) Gen(prop, tier string, r *simrt.Rng) (any, simrt.Config) {
 			c.MaxIterations = uint64(simrt.Pick(r, c.Concurrency-1, c.Concurrency, c.Concurrency+1, 2*c.Concurrency+3))
 		}
 		maxSleep = simrt.Pick(r, 0, 0, 3, 20)
+		if r.Intn(4) == 0 {
+			c.C03Overload = true // set up below: more requests per tick than workers, bodies longer than a tick
+		}
 	case "C04":
 		mode = simrt.Pick(r, "constant", "constant", "staged", "ramp", "gaussian", "users", "users")
 	case "C05":
@@ -321,9 +329,14 @@ func (h h1) Gen(prop, tier string, r *simrt.Rng) (any, simrt.Config) {
 		failShare = simrt.Pick(r, 0.3, 0.6, 1.0)
 		nplans = 3 + r.Intn(30)
 	case "C08":
-		c.Driver = simrt.Pick(r, "api", "cli")
-		if c.Driver == "cli" {
+		c.Driver = simrt.Pick(r, "api", "api", "cli", "cli", "f1")
+		if c.Driver != "api" {
 			c.Interactive = false // the counts are read from the structured summary record
+		}
+		if c.Driver == "f1" {
+			c.Verbose = true // no log file per run
+			c.MemProfile = r.Intn(2) == 0
+			c.Metrics = false
 		}
 		c.IgnoreDropped = r.Intn(2) == 0
 		c.MaxFailures = uint64(simrt.Pick(r, 0, 0, 1, 2, 5))
@@ -441,6 +454,23 @@ func (h h1) Gen(prop, tier string, r *simrt.Rng) (any, simrt.Config) {
 				c.Prog.Iter[i].Behav = bPass
 			}
 		}
+	case "C03":
+		if c.C03Overload {
+			// overloaded constant rate with a limit: requests are dropped tick after tick, yet the trigger keeps
+			// requesting, so the limit must still be reached
+			iv := simrt.Pick(r, int64(10), 20, 50)
+			c.Concurrency = 1 + r.Intn(3)
+			rate := c.Concurrency + 1 + r.Intn(4)
+			c.Mode, c.Flags = "constant", map[string]string{"rate": fmt.Sprintf("%d/%dms", rate, iv), "distribution": "none"}
+			c.TickNs, c.TickRate = iv*ms, rate
+			c.MaxIterations = uint64(simrt.Pick(r, 5, 9, 20))
+			body := iv*ms*int64(1+r.Intn(3)) + 1009
+			c.Prog.Iter = []IterPlan{{SleepNs: body}, {SleepNs: body + 2003}}
+			c.Prog.SetupBehav, c.Prog.SetupSleepNs, c.Prog.SetupCleanups = bPass, 0, nil
+			c.CancelAtNs, c.CancelAtStep = 0, 0
+			c.MaxDurationNs = int64(c.MaxIterations)*(body+3*ms+iv*ms)*2 + 50*ms + odd(r)
+			c.WaitTimeoutNs = int64(time.Second) + odd(r)
+		}
 	case "C08":
 		if r.Intn(4) == 0 { // zero-iteration runs
 			switch r.Intn(3) {
@@ -510,6 +540,10 @@ func (h h1) Gen(prop, tier string, r *simrt.Rng) (any, simrt.Config) {
 		rate := int64(r.Intn(9))
 		c.Flags["rate"] = fmt.Sprintf("%d/%dms", rate, iv)
 		c.TickNs, c.TickRate = iv*int64(time.Millisecond), int(rate)
+	}
+	if c.Driver == "f1" {
+		c.CancelAtNs, c.CancelAtStep, c.Runs = 0, 0, 1
+		c.Verbose, c.Interactive = true, false
 	}
 	if c.Mode == "users" {
 		c.TickNs, c.TickRate = 0, 0
